@@ -12,7 +12,7 @@ from sa.report import Ctx
 
 from .common import generic_sweeps
 
-from .cp_common import check_alldiff_coverage, check_id_allocation, flattener_tags, produced_tags, shape_dispatch_falls_through, structural_len_subjects
+from .cp_common import check_alldiff_coverage, check_cumulative_horizon, check_id_allocation, flattener_tags, produced_tags, shape_dispatch_falls_through, structural_len_subjects
 
 EXPLANATION = (
     "Decides structural necessary conditions of 'the CNF has exactly the CP models' on cp_encoder.py: (O1) the "
@@ -23,7 +23,7 @@ EXPLANATION = (
     "that compares the size of a collection with a literal (cardinality cut-off) - only emptiness, domain-membership "
     "and arithmetic guards may skip; (O4) no structural shape dispatch of linear constraints falls through silently "
     "and the encoder's linearisation consumes (or loudly rejects) every expression tag; (O5) decoding reads, for each "
-    "named variable, only that variable's own literals and returns a value of its domain. (O7) each boolean-id counter is written only by its initialisation and its allocator, auxiliary variables draw their literals from the encoder's allocator, and the encoder stores nothing in the model. (O8) in the scheduling encoders an additive term never mixes the start of one task with the duration of another. NOT decided: clause-level "
+    "named variable, only that variable's own literals and returns a value of its domain. (O7) each boolean-id counter is written only by its initialisation and its allocator, auxiliary variables draw their literals from the encoder's allocator, and the encoder stores nothing in the model. (O8) in the scheduling encoders an additive term never mixes the start of one task with the duration of another. (O9) partial-sum domains are clamped against the target only by what the remaining variables can contribute, and sum_le / sum_ge are mirror images. (O10) cumulative emits its capacity clauses for every instant up to and including the latest possible start. NOT decided: clause-level "
     "correctness of each pairwise / partial-sum / MTZ / time-indexed encoding."
 )
 
@@ -193,6 +193,63 @@ def check_same_task(ctx: Ctx, oid: str):
     ctx.floor("task argument groups of _encode_disjunctive_le", n_groups, 2)
 
 
+def check_partial_sum_domains(ctx: Ctx, oid: str):
+    """A partial-sum variable may be clamped against the target only by what the remaining variables can still
+    contribute: upper clamp `target - sum(lb of the rest)`, lower clamp `target - sum(ub of the rest)`.  A clamp that
+    ignores the rest cuts off valid assignments as soon as the rest can be negative (resp. positive)."""
+    n = 0
+    for q, side in (("SATEncoder._encode_sum_le", "le"), ("SATEncoder._encode_sum_ge", "ge"), ("SATEncoder._encode_sum_eq", "eq")):
+        if not ctx.repo.has_func(ENCMOD, q):
+            continue
+        f = ctx.func(ENCMOD, q)
+        defs = {ast.unparse(d.targets[0]): d.value for d in own_nodes(f.node) if isinstance(d, ast.Assign) and len(d.targets) == 1}
+        for c in own_nodes(f.node):
+            if not (isinstance(c, ast.Call) and isinstance(c.func, ast.Attribute) and c.func.attr == "_create_int_var" and len(c.args) == 2):
+                continue
+            for pos, bound in enumerate(c.args):
+                if "target" not in {x.id for x in ast.walk(bound) if isinstance(x, ast.Name)}:
+                    continue
+                n += 1
+                # every occurrence of `target` inside the bound is `target - R`, R = sum of the opposite bounds of the rest
+                ok, why = True, ""
+                for x in ast.walk(bound):
+                    if isinstance(x, ast.Name) and x.id == "target":
+                        par = [p_ for p_ in ast.walk(bound) if isinstance(p_, ast.BinOp) and isinstance(p_.op, ast.Sub) and p_.left is x]
+                        if not par or not isinstance(par[0].right, ast.Name):
+                            ok, why = False, "`target` is used without subtracting what the remaining variables contribute"
+                            continue
+                        r = defs.get(par[0].right.id)
+                        want = "lb" if pos == 1 else "ub"  # upper clamp needs the rest's minimum, lower clamp its maximum
+                        good = r is not None and isinstance(r, ast.Call) and ast.unparse(r.func) == "sum" and ast.unparse(r.args[0]) in (f"(v.{want} for v in variables[2:])",)
+                        if not good:
+                            ok, why = False, f"`{par[0].right.id}` is not the sum of `.{want}` over the remaining variables"
+                wrap = ast.unparse(bound.func) if isinstance(bound, ast.Call) else ""
+                if ok and wrap != ("min" if pos == 1 else "max"):
+                    ok, why = False, f"the clamp must tighten the natural bound with `{'min' if pos == 1 else 'max'}`"
+                ctx.ob(oid, "R18 SIBLING-AGREEMENT (expression)", f, f"{'upper' if pos == 1 else 'lower'} clamp of the partial-sum domain accounts for the remaining variables", ok, f"`{ast.unparse(bound)}`: {why}" if why else "", node=c)
+    ctx.floor("partial-sum domain clamps", n, 2)
+    # the two one-sided encoders are mirror images of each other
+    le, ge = ctx.func(ENCMOD, "SATEncoder._encode_sum_le"), ctx.func(ENCMOD, "SATEncoder._encode_sum_ge")
+
+    def clamp(f, pos):
+        for c in own_nodes(f.node):
+            if isinstance(c, ast.Call) and isinstance(c.func, ast.Attribute) and c.func.attr == "_create_int_var" and len(c.args) == 2:
+                return ast.unparse(c.args[pos]), ast.unparse(c.args[1 - pos])
+        return None, None
+
+    a_le, b_le = clamp(le, 1)
+    a_ge, b_ge = clamp(ge, 0)
+
+    def mirror(t):
+        if t is None:
+            return None
+        for a, b in ((".ub", "\0U"), (".lb", ".ub"), ("\0U", ".lb"), ("min(", "\0M"), ("max(", "min("), ("\0M", "max("), ("rest_min", "\0R"), ("rest_max", "rest_min"), ("\0R", "rest_max")):
+            t = t.replace(a, b)
+        return t
+
+    ctx.ob(oid, "R18 SIBLING-AGREEMENT (expression)", le, "sum_le and sum_ge build their partial-sum domains as mirror images (min/max, lb/ub, rest_min/rest_max swapped)", a_le is not None and mirror(a_le) == a_ge and mirror(b_le) == b_ge, f"sum_le ({b_le}, {a_le}) / sum_ge ({a_ge}, {b_ge})", node=le.node)
+
+
 def run(ctx: Ctx):
     m = ctx.repo.module(ENCMOD)
     solve = ctx.func(ENCMOD, "SATEncoder.solve")
@@ -258,6 +315,8 @@ def run(ctx: Ctx):
     check_alldiff_coverage(ctx, "C06-O6")
     check_id_allocation(ctx, "C06-O7")
     check_same_task(ctx, "C06-O8")
+    check_partial_sum_domains(ctx, "C06-O9")
+    check_cumulative_horizon(ctx, "C06-O10")
 
     # O4 dispatch totality / expression tags
     ctags, etags = produced_tags(ctx)
@@ -391,6 +450,23 @@ def _v_disjunctive_wrong_duration(tree):
     M.replace_expr(g, lambda e: M.src_is(e, "s2 + dur2 <= s1"), M.expr("s2 + dur1 <= s1"))
 
 
+def _v_sum_le_clamp_ignores_rest(tree):
+    g = M.find_func(tree, "SATEncoder._encode_sum_le")
+    M.replace_expr(g, lambda e: M.src_is(e, "target - rest_min"), M.expr("target"))
+
+
+def _v_cumulative_last_start_unchecked(tree):
+    g = M.find_func(tree, "SATEncoder._encode_cumulative")
+    M.replace_expr(g, lambda e: M.src_is(e, "max((s.ub + d for s, d in zip(starts, durations)))"), M.expr("max((s.ub for s in starts))"))
+
+
+def _t_cumulative_start_instants(tree):
+    """equally valid: scan up to and including the latest start"""
+    g = M.find_func(tree, "SATEncoder._encode_cumulative")
+    M.replace_expr(g, lambda e: M.src_is(e, "max((s.ub + d for s, d in zip(starts, durations)))"), M.expr("max((s.ub for s in starts))"))
+    M.replace_expr(g, lambda e: M.src_is(e, "range(min_start, max_end)"), M.expr("range(min_start, max_end + 1)"))
+
+
 def _t_reformat(tree):
     pass
 
@@ -421,5 +497,8 @@ VARIANTS = [
     M.Variant("auxiliary variables are registered in the model and re-encoded by the next solve (original defect)", ENC, _v_aux_registered, "C06-O7"),
     M.Variant("no_overlap skips pairs using the other task's duration (seed C06-D)", ENC, _v_skip_pairs_wrong_duration, "C06-O8"),
     M.Variant("pairwise disjunction adds task 1's duration to task 2's start", ENC, _v_disjunctive_wrong_duration, "C06-O8"),
+    M.Variant("sum_le clamps the partial sum at the target, ignoring negative remaining variables (seed C06-E)", ENC, _v_sum_le_clamp_ignores_rest, "C06-O9"),
+    M.Variant("cumulative scans start instants with an exclusive upper end (seeds C05-E / C06-F)", ENC, _v_cumulative_last_start_unchecked, "C06-O10"),
+    M.Variant("twin: cumulative scans up to and including the latest start", ENC, _t_cumulative_start_instants, None),
     M.Variant("twin: reformat", ENC, _t_reformat, None),
 ]
